@@ -546,7 +546,7 @@ fn execute(b: &Built, exit_mode: u8, mode: RunMode, scratch: &std::path::Path, s
 /// Many errors in one run: the latest wins after hundreds of them, in a loop and on hundreds of
 /// different lines; the first error after exit_on_error is fatal with its own line however far down.
 fn scale(w: &mut Worker) {
-    let sizes: Vec<usize> = with_thresholds_usize(w.tier.pick(vec![300, 3000], vec![300, 3000, 30000]), w.tier.pick(1024, 16384));
+    let sizes: Vec<usize> = with_thresholds_usize(w.tier.pick(vec![300, 3000, 12000], vec![300, 3000, 12000, 30000, 70000]), w.tier.pick(1024, 16384));
     for &n in &sizes {
         // a loop raising n errors
         let text = format!(
